@@ -9,12 +9,14 @@ import (
 	"runtime"
 	"sort"
 	"strings"
+	"sync/atomic"
 	"time"
 	"unicode"
 
 	"github.com/aml-org/amf-custom-validator/pkg"
 	"github.com/aml-org/amf-custom-validator/pkg/config"
 	"github.com/aml-org/amf-custom-validator/pkg/events"
+	"github.com/aml-org/amf-custom-validator/verifrt"
 	"github.com/open-policy-agent/opa/rego"
 )
 
@@ -116,14 +118,79 @@ func protect(f func() (string, error)) (res CallRes) {
 	return CallRes{Report: s, Err: err}
 }
 
+// ---- twins: the debug flag and the sibling entry points ---------------------------
+//
+// Every entry point takes a `debug` flag that, by the documentation, only adds diagnostics; and the four validating
+// entry points are documented as one function seen through different defaults. Every 8th call made through the
+// wrappers below (those without an event channel, outside controlled executions) is repeated, in rotation, (a) with
+// debug=true, (b) through the entry point that takes no configuration (default clock: the dateCreated value is
+// masked on both sides), (c) for calls that start from the profile text: compiled first, then validated with the
+// compiled query. The outcomes must be identical. A difference is parked here and turned into a violation of the
+// running check's property by the framework when the case ends.
+
+var twinCalls int64
+var DebugTwinDiff string
+
+var twinDateRe = regexp.MustCompile(`"dateCreated": "[^"]*"`)
+
+func twinCompare(what string, r, r2 CallRes, maskDate bool) {
+	a, b := r.Report, r2.Report
+	if maskDate {
+		a, b = twinDateRe.ReplaceAllString(a, `"dateCreated": "-"`), twinDateRe.ReplaceAllString(b, `"dateCreated": "-"`)
+	}
+	if (r.Err == nil) != (r2.Err == nil) || (r.Panic == nil) != (r2.Panic == nil) || a != b {
+		if DebugTwinDiff == "" {
+			DebugTwinDiff = fmt.Sprintf("%s: the call gives %s (%d bytes), its twin gives %s (%d bytes)\n%s", what, firstLine(r.ErrString()), len(r.Report), firstLine(r2.ErrString()), len(r2.Report), firstDiff(a, b))
+		}
+	}
+}
+
+// withTwins: f is the call (parameterised by debug); plain, if not nil, is the same call through the entry point
+// without configuration; viaCompile, if not nil, is the same call as CompileProfile + ValidateCompiledWithConfiguration.
+func withTwins(what string, defaults bool, f func(debug bool) (string, error), plain, viaCompile func() (string, error)) CallRes {
+	r := protect(func() (string, error) { return f(false) })
+	n := atomic.AddInt64(&twinCalls, 1)
+	if n%8 != 0 || verifrt.Active != nil {
+		return r
+	}
+	switch (n / 8) % 3 {
+	case 0:
+		twinCompare(what+" with debug=true", r, protect(func() (string, error) { return f(true) }), false)
+	case 1:
+		if plain != nil && defaults {
+			twinCompare(what+" through the entry point without configuration", r, protect(plain), true)
+		}
+	case 2:
+		if viaCompile != nil {
+			twinCompare(what+" as CompileProfile + ValidateCompiledWithConfiguration", r, protect(viaCompile), false)
+		}
+	}
+	return r
+}
+
+func isDefaultConf(rc config.ReportConfiguration) bool { return rc == config.DefaultReportConfiguration() }
+
+func viaCompile(profile, data string, clock config.ValidationConfiguration, rc config.ReportConfiguration) func() (string, error) {
+	return func() (string, error) {
+		q, err := pkg.CompileProfile(profile, false, nil)
+		if err != nil {
+			return "", err
+		}
+		return pkg.ValidateCompiledWithConfiguration(q, data, false, nil, clock, rc)
+	}
+}
+
 // Validate runs pkg.ValidateWithConfiguration under the fixed clock.
 func Validate(profile, data string) CallRes {
-	return protect(func() (string, error) {
-		return pkg.ValidateWithConfiguration(profile, data, false, nil, Epoch2000, DefaultReportConf())
-	})
+	return ValidateConf(profile, data, Epoch2000, DefaultReportConf(), nil)
 }
 
 func ValidateConf(profile, data string, clock config.ValidationConfiguration, rc config.ReportConfiguration, ch *chan events.Event) CallRes {
+	if ch == nil {
+		return withTwins("ValidateWithConfiguration", isDefaultConf(rc), func(debug bool) (string, error) {
+			return pkg.ValidateWithConfiguration(profile, data, debug, nil, clock, rc)
+		}, func() (string, error) { return pkg.Validate(profile, data, false, nil) }, viaCompile(profile, data, clock, rc))
+	}
 	return protect(func() (string, error) {
 		return pkg.ValidateWithConfiguration(profile, data, false, ch, clock, rc)
 	})
@@ -154,12 +221,15 @@ func CompileCh(profile string, ch *chan events.Event) (q *rego.PreparedEvalQuery
 
 // ValidateCompiled runs pkg.ValidateCompiledWithConfiguration under the fixed clock.
 func ValidateCompiled(q *rego.PreparedEvalQuery, data string) CallRes {
-	return protect(func() (string, error) {
-		return pkg.ValidateCompiledWithConfiguration(q, data, false, nil, Epoch2000, DefaultReportConf())
-	})
+	return ValidateCompiledConf(q, data, Epoch2000, DefaultReportConf(), nil)
 }
 
 func ValidateCompiledConf(q *rego.PreparedEvalQuery, data string, clock config.ValidationConfiguration, rc config.ReportConfiguration, ch *chan events.Event) CallRes {
+	if ch == nil {
+		return withTwins("ValidateCompiledWithConfiguration", isDefaultConf(rc), func(debug bool) (string, error) {
+			return pkg.ValidateCompiledWithConfiguration(q, data, debug, nil, clock, rc)
+		}, func() (string, error) { return pkg.ValidateCompiled(q, data, false, nil) }, nil)
+	}
 	return protect(func() (string, error) {
 		return pkg.ValidateCompiledWithConfiguration(q, data, false, ch, clock, rc)
 	})
@@ -195,6 +265,9 @@ func ParseReport(text string) (*Report, error) {
 	dec.UseNumber()
 	if err := dec.Decode(&top); err != nil {
 		return nil, fmt.Errorf("report is not JSON: %v", err)
+	}
+	if rest := strings.TrimSpace(text[dec.InputOffset():]); rest != "" {
+		return nil, fmt.Errorf("report is not one JSON document: %d bytes follow the first value (%q…)", len(rest), tailStr(rest, 40))
 	}
 	arr, ok := top.([]any)
 	if !ok || len(arr) != 1 {
